@@ -288,3 +288,66 @@ def expand(tree: ast.Module, modname: str) -> int:
                 break
     ast.fix_missing_locations(tree)
     return ex.count
+
+
+# --------------------------------------------------------------------------- new record types
+def untuple_records(tree: ast.Module, modname: str) -> int:
+    """`Replace tuple with NamedTuple`: a NamedTuple class the reference tree does not know is read back as the plain tuple
+    it replaced - `Rec(a, b, c)` / `Rec(x=a, y=b, z=c)` becomes `(a, b, c)` and `r.x` becomes `r[0]`. Only when the field
+    names are used for nothing else in the module (no other class declares them, nothing stores to them)."""
+    from .relocate import shapes
+    ref = shapes().get(modname)
+    if not ref or "<globals>" not in ref:
+        return 0
+    known = set(ref["<globals>"]["bag"])
+    count = 0
+    for cls in [n for n in tree.body if isinstance(n, ast.ClassDef)]:
+        if cls.name in known:
+            continue
+        if not any((isinstance(b, ast.Name) and b.id == "NamedTuple") or (isinstance(b, ast.Attribute) and b.attr == "NamedTuple") for b in cls.bases):
+            continue
+        fields = [st.target.id for st in cls.body if isinstance(st, ast.AnnAssign) and isinstance(st.target, ast.Name)]
+        if not fields or any(isinstance(st, ast.AnnAssign) and st.value is not None for st in cls.body) \
+                or any(isinstance(st, (ast.FunctionDef, ast.AsyncFunctionDef)) for st in cls.body):
+            continue
+        clash = False
+        for n in ast.walk(tree):
+            if isinstance(n, ast.Attribute) and n.attr in fields and isinstance(n.ctx, (ast.Store, ast.Del)):
+                clash = True
+            if isinstance(n, ast.ClassDef) and n is not cls:
+                for x in ast.walk(n):
+                    if isinstance(x, ast.Attribute) and x.attr in fields and isinstance(x.value, ast.Name) and x.value.id == "self":
+                        clash = True
+                    if isinstance(x, ast.AnnAssign) and isinstance(x.target, ast.Name) and x.target.id in fields and x in n.body:
+                        clash = True
+        if clash:
+            continue
+        ok = True
+        for n in ast.walk(tree):
+            if isinstance(n, ast.Call) and isinstance(n.func, ast.Name) and n.func.id == cls.name:
+                got = len(n.args) + len(n.keywords)
+                if got != len(fields) or any(k.arg not in fields for k in n.keywords) or any(isinstance(a, ast.Starred) for a in n.args):
+                    ok = False
+        if not ok:
+            continue
+        name, flds = cls.name, fields
+
+        class T(ast.NodeTransformer):
+            def visit_Call(self, n):
+                self.generic_visit(n)
+                if isinstance(n.func, ast.Name) and n.func.id == name:
+                    vals = dict(zip(flds, n.args))
+                    vals.update({k.arg: k.value for k in n.keywords})
+                    return ast.copy_location(ast.Tuple(elts=[vals[f] for f in flds], ctx=ast.Load()), n)
+                return n
+
+            def visit_Attribute(self, n):
+                self.generic_visit(n)
+                if n.attr in flds and isinstance(n.ctx, ast.Load):
+                    return ast.copy_location(ast.Subscript(value=n.value, slice=ast.Constant(value=flds.index(n.attr)), ctx=ast.Load()), n)
+                return n
+        T().visit(tree)
+        count += 1
+    if count:
+        ast.fix_missing_locations(tree)
+    return count
